@@ -224,6 +224,32 @@ def impl_parallel(args, lines, shards=8, timeout=1800):
     return [x for r in res for x in r]
 
 
+def impl_isolating(args, lines, ncols, shards=16, timeout=600, single_timeout=20):
+    """like impl_parallel, but a case that crashes or hangs the process is isolated by bisection and
+    answered with a JSON list of ncols "CRASH" strings; the other cases keep their real answers."""
+    import concurrent.futures as cf
+    crash = json.dumps(["CRASH"] * ncols)
+
+    def solve(part, t):
+        if not part:
+            return []
+        try:
+            return impl(args, part, t)
+        except (RuntimeError, subprocess.TimeoutExpired):
+            if len(part) == 1:
+                return [crash]
+            mid = len(part) // 2
+            t2 = max(single_timeout, t // 2)
+            return solve(part[:mid], t2) + solve(part[mid:], t2)
+    if len(lines) < 200 or shards <= 1:
+        return solve(lines, timeout)
+    size = (len(lines) + shards - 1) // shards
+    parts = [lines[i:i + size] for i in range(0, len(lines), size)]
+    with cf.ThreadPoolExecutor(len(parts)) as ex:
+        res = list(ex.map(lambda p: solve(p, timeout), parts))
+    return [x for r in res for x in r]
+
+
 def model_parallel(entry, lines, shards=8, timeout=1800):
     import concurrent.futures as cf
     if len(lines) < 2000 or shards <= 1:
@@ -333,6 +359,20 @@ class Ctx:
         os.makedirs(os.path.join(ROOT, "evidence"), exist_ok=True)
         json.dump(ev, open(os.path.join(ROOT, "evidence", self.prop + ".json"), "w"), indent=1)
         return 1 if self.violations else 0
+
+
+def coqchk(ctx):
+    """thorough tier: re-check the compiled cone of the property's theorems with Coq's independent checker and
+    record the axioms it reports (expected: none)."""
+    if ctx.proof_broken:
+        return
+    with Lock("coq"):
+        rc, o, e = sh("timeout 3000 coqchk -silent -o -Q theories JS JS.Props.%s 2>&1" % ctx.prop, cwd=COQ, timeout=3100)
+    m = re.search(r"\* Axioms:\s*(.*?)\n\s*\n\* Constants", o, re.S)
+    axioms = m.group(1).strip() if m else "?"
+    ctx.extra["coqchk"] = {"exit": rc, "axioms": axioms, "type_in_type": "<none>" in (re.search(r"type-in-type:\s*(\S+)", o) or [None, ""])[1] if re.search(r"type-in-type:\s*(\S+)", o) else "?"}
+    if rc != 0 or axioms != "<none>":
+        ctx.report("coqchk does not accept the compiled theorems of %s or reports axioms: exit %d, axioms %s" % (ctx.prop, rc, axioms[:300]), "coqchk", {"output": o[-3000:]}, no_input=True)
 
 
 def prepare(ctx, need_model=True, need_impl=True):
